@@ -1074,9 +1074,13 @@ class InputParameterStr(InputParameter):
             
         Raises
         ------
+        ValueError
+            if the parameter is read-only
         TypeError
             if the new value is not a str
         """
+        if self.read_only:
+            raise ValueError(f"parameter {self.key} is read only")
         if not isinstance(value, str):
             raise ValueError(f"parameter value {value} not a str")
         self._value = value
